@@ -33,6 +33,7 @@ var repoPkgPaths = []string{pkgMcap, pkgRos, pkgRos1msg, pkgReadC, pkgWriteC}
 
 // Program is everything the rules look at.
 type Program struct {
+	callerIdx map[*ssa.Function][]ssa.CallInstruction
 	RepoRoot string
 	Fset     *token.FileSet
 	Pkgs     map[string]*packages.Package // repo packages by path
